@@ -146,7 +146,10 @@ def _trailer_zone(stream: bytes, maxtr: int) -> bool:
     try:
         while True:
             i = stream.index(b"\r\n", pos)
-            n = int(stream[pos:i].split(b";")[0], 16)
+            field = stream[pos:i].split(b";")[0]
+            if not field or any(c not in HEX for c in field):
+                return False
+            n = int(field, 16)
             pos = i + 2
             if n == 0:
                 break
@@ -189,7 +192,17 @@ def oracle(case, obs):
     zone = ":trailer-limit" if _trailer_zone(stream, maxtr) else ""
     exp = case.get("exp")
     rb, rend = ref_decode(stream, maxtr)
-    whole = None
+    # 1. all delivery patterns agree with whole delivery (needs no reference at all)
+    wp, wend = _decode_impl([stream], maxtr)
+    whole = (b"".join(wp), wend)
+    for cuts, res in zip(case["cuts"], results):
+        dat, _, end = res.partition("|")
+        body = bytes.fromhex(dat.replace(",", ""))
+        if (body, end) != whole:
+            return Failure(case, f"deliveries cut at {cuts[:8]}{'...' if len(cuts) > 8 else ''}: body={body!r} "
+                                 f"end={end[:40]}, but delivered whole: body={whole[0]!r} end={whole[1][:40]}",
+                           f"seg:{_kind(whole[1])}->{_kind(end)}" + zone)
+    # 2. the expected outcome by construction, and the whole-stream reference decoder
     for cuts, res in zip(case["cuts"], results):
         how = f"deliveries cut at {cuts[:8]}{'...' if len(cuts) > 8 else ''}: " if cuts else "delivered whole: "
         dat, _, end = res.partition("|")
@@ -211,12 +224,6 @@ def oracle(case, obs):
             what = "body" if body != rb else f"{_kind(rend)}->{_kind(end)}"
             return Failure(case, how + f"reference decoder gives body={rb!r} end={rend[:40]}, implementation "
                                        f"body={body!r} end={end[:40]}", f"ref:{what}" + zone)
-        if whole is None:
-            whole = (body, end) if not cuts else tuple(
-                (lambda pe: (b"".join(pe[0]), pe[1]))(_decode_impl([stream], maxtr)))
-        if (body, end) != whole:
-            return Failure(case, how + f"body={body!r} end={end[:40]}, but delivered whole: body={whole[0]!r} "
-                                       f"end={whole[1][:40]}", f"seg:{_kind(whole[1])}->{_kind(end)}" + zone)
     return None
 
 
